@@ -302,7 +302,11 @@ def _parts():
                                 b"\x80\x02}q\x05(K\x01]q\x05K\x02h\x05u.", b"\x80\x04\x8c\x01a\x94\x8c\x01b\x94q\x000h\x01\x86."])  # fmt: skip
     # values left on the stack below the result at STOP (legal; only hand-built)
     leftovers = st.sampled_from([b"K\x01K\x02.", b"(K\x01K\x02.", b"NN].", b"\x80\x02K\x05]q\x00."])
-    return st.one_of(*([small] * 8), big, odd_memo, leftovers)
+    # header-less members whose first opcode is written in a way the encoders would not choose
+    # (text booleans, zero-padded / L-suffixed numbers, double-quoted and escaped strings)
+    unfaithful_first = st.sampled_from([b"I01\n.", b"I00\n.", b"I+7\n.", b"L5L\n.", b"L5\n.", b'S"a"\n.',
+                                        b"V\\u0061\n.", b"I01\n]\x94.", b"(I01\nI00\nl."])  # fmt: skip
+    return st.one_of(*([small] * 8), big, odd_memo, leftovers, unfaithful_first)
 
 
 def _dumps(v, proto):
